@@ -2,7 +2,9 @@
 //! the `Format:` gate, lossless view vs lossy view.
 //!
 //! ops
-//!   glob.match <pattern> <path>                      -> `1` | `0` | `PANIC`
+//!   glob.match <files field> <path>                  -> `1` | `0` | `PANIC`
+//!       (a one-line Files field: since fix 546a36f both views split it on white space, so a
+//!        space separates patterns; a field without white space is one pattern)
 //!   cpr.find   <text> <path> <strict_ok> <paras>     -> `L[..] R[..] Y[..]`
 //!
 //! `<paras>` / `<strict_ok>` are what the real deb822 reader makes of `<text>` (the generator
@@ -71,9 +73,10 @@ struct Expect {
 }
 
 /// Is the paragraph list a well-formed DEP-5 file in the sense of the property's quantifier?
-/// header (Format, neither Files nor License) followed by Files paragraphs (Files with at least
-/// one pattern, Copyright, License with a non-empty name or a text) and stand-alone licence
-/// paragraphs (License with non-empty first line, no Files); all patterns with valid escapes.
+/// (Lean: `Spec.wellFormed` = lossyShape, headerOnly, licenceNamed, patternsValid.)
+/// header (Format, neither Files nor License) followed by Files paragraphs (Files, Copyright,
+/// License) and stand-alone licence paragraphs (License not beginning with an empty line, no
+/// Files); all patterns with valid escapes.
 fn in_domain(text: &str, strict_ok: bool, paras: &[Para]) -> bool {
     if !text.starts_with("Format:") || !strict_ok || paras.is_empty() {
         return false;
@@ -84,17 +87,16 @@ fn in_domain(text: &str, strict_ok: bool, paras: &[Para]) -> bool {
     }
     for p in &paras[1..] {
         match (pget(p, "Files"), pget(p, "License")) {
-            (Some(f), Some(l)) => {
-                if pget(p, "Copyright").is_none() || l.is_empty() {
+            (Some(f), Some(_)) => {
+                if pget(p, "Copyright").is_none() {
                     return false;
                 }
-                let pats: Vec<&str> = f.split_whitespace().collect();
-                if pats.is_empty() || !pats.iter().all(|g| ref_valid(&chars(g))) {
+                if !f.split_whitespace().all(|g| ref_valid(&chars(g))) {
                     return false;
                 }
             }
             (None, Some(l)) => {
-                if l.is_empty() || l.starts_with('\n') {
+                if l.starts_with('\n') {
                     return false;
                 }
             }
@@ -275,7 +277,7 @@ fn view_y(text: &str, path: &str, strict_ok: bool) -> View {
 }
 
 /// `glob_to_regex(pattern).is_match(path)` is private; the lossy `FilesParagraph` built from a
-/// field list (no text, hence no trimming) carries any one-line pattern unchanged to it
+/// field list (no text involved) hands the one-line Files field to `deserialize_file_list`
 fn glob_via_lossy(pattern: &str, path: &str) -> Result<Ans<bool>, String> {
     let para: deb822_lossless::lossy::Paragraph = vec![
         ("Files".to_string(), pattern.to_string()),
@@ -289,15 +291,12 @@ fn glob_via_lossy(pattern: &str, path: &str) -> Result<Ans<bool>, String> {
 }
 
 /// the same question through a copyright text and the lossless view, when the text form carries
-/// the pattern unchanged (one whitespace-free, non-empty token)
+/// the same pattern list
 fn glob_via_text(pattern: &str, path: &str) -> Option<(Ans<bool>, Ans<bool>)> {
-    if pattern.is_empty() || pattern.chars().any(|c| c.is_whitespace()) {
-        return None;
-    }
     let text = format!("Format: x\n\nFiles: {}\nCopyright: c\nLicense: l\n", pattern);
     let c = debian_copyright::lossless::Copyright::from_str(&text).ok()?;
     let fp = c.iter_files().next()?;
-    if fp.files() != vec![pattern.to_string()] {
+    if fp.files() != pattern.split_whitespace().map(|x| x.to_string()).collect::<Vec<_>>() {
         return None;
     }
     let m = guard(|| fp.matches(Path::new(path)));
@@ -322,11 +321,12 @@ pub fn handle(op: &str, a: &[&str]) -> Option<Resp> {
                 Ans::Val(false) => "0",
                 Ans::Panic => "PANIC",
             };
-            let gc = chars(&g);
+            let toks: Vec<Vec<char>> = g.split_whitespace().map(chars).collect();
             let mut fail = None;
             // domain of the glob clause: valid escapes, path without a newline
-            if ref_valid(&gc) && !p.contains('\n') {
-                let want = ref_glob(&gc, &chars(&p));
+            if toks.iter().all(|t| ref_valid(t)) && !p.contains('\n') {
+                let pc = chars(&p);
+                let want = toks.iter().any(|t| ref_glob(t, &pc));
                 if r != Ans::Val(want) {
                     fail = Some(format!("glob {:?} on path {:?}: expected {} got {}", g, p, ebool(want), obs));
                 }
